@@ -40,6 +40,15 @@ CHECKS = {
  "C16": dict(cat="fault_enumeration", tech="deterministic simulation with crash injection inside Merge: crash and torn images at Merge's file-mutation points, recovery must equal the pre-Merge model state",
    text="C15's histories with crash and torn-write images at the file-mutation points inside Merge (quick: half, thorough: all); each image is mounted, opened and fully observed and must equal the state before Merge.",
    note="Known finding K4a (positional sorted-set removals) and K5 (lists) avoided as in C15."),
+ "C02": dict(cat="exploration", tech="deterministic simulation: seeded single-bucket KV histories in sparse index mode with small segments and clean reopens, refinement against the ordered-map+TTL model",
+   text="Seeded Put/PutWithTimestamp/Delete/TTL histories in HintBPTSparseIdxMode with segments of a few hundred bytes (most keys live in sealed segments behind on-disk B+ tree, root-index and tx-id files), interleaved with Close/Open and clock moves; Get of every key, GetAll, RangeScan (incl. ranges strictly inside one segment's span) and PrefixScan without limit compared with the model after every step.",
+   note="Single-bucket histories with unambiguous bucket+key concatenations (the ambiguous case is C04 / known finding K6)."),
+ "C03": dict(cat="exploration", tech="deterministic simulation: seeded KV histories with tombstones and expiry in all three index modes, then systematic (prefix, offset, limit, regexp) paging compared with a model that pages over live keys",
+   text="After seeded histories with many dead keys, every PrefixScan(offset in 0..n+1, limit in 1..n+1 and no limit) for every bucket and up to 3 prefixes, plus PrefixSearchScan with offset 0 over several regular expressions, in both RAM modes and sparse mode; results must equal the model's page over live prefixed keys.",
+   note="limit = 0, negative offsets and the returned off value are outside the statement."),
+ "C04": dict(cat="exploration", tech="deterministic simulation: seeded histories over adversarially named buckets and keys in all index modes and structures, refinement against a model with independent per-bucket namespaces",
+   text="Two to four buckets with names that are prefixes of each other / equal to keys / empty / contain '|' and keys chosen so that bucket+key concatenations coincide; KV in all index modes, lists/sets/sorted sets in key+value mode; single-bucket transactions; reopens; every read of every bucket compared with the model after every step.",
+   note="Known finding K6 (sparse mode indexes by the bare concatenation bucket+key) is avoided in sparse mode only, by equal-length bucket names; it is re-demonstrated from its witness."),
 }
 
 ORDER = sorted(CHECKS)
